@@ -19,13 +19,17 @@ PROPS = {
             "Hctl.C05.accepted_frontier",
             "Hctl.C05.parse_fuel_sufficient",
             "Hctl.C05.paren_invariant",
+            "Hctl.C05.plain_rejects_ext",
+            "Hctl.C05.ext_extends_plain",
+            "Hctl.C05.parseOne_ext_of_plain",
         ],
         "ks": ["k2", "k1"],
         "spec_tied": ["k2"],
         "full": False,
-        "not_proved": "lexer: the model's tokenizer is tied to the code by K1 (exhaustive strings to a length bound + "
-                      "structured random) and the plain/extended relation is checked by an oracle on the implementation; "
-                      "lex_sound/lex_complete against a spelling specification are not proved",
+        "not_proved": "lexer: the plain/extended relation is proved for every text (plain_rejects_ext, ext_extends_plain, under "
+                      "the character-class fact that '%' is not alphanumeric); lex_sound/lex_complete of the tokenizer against a "
+                      "separate spelling specification are not proved: the model's tokenizer is tied to the code by K1 "
+                      "(exhaustive strings to a length bound + structured random)",
         "rule": "K2: exhaustive token sequences by weight over 10 token kinds with groups nested <=2, plus token lists of "
                 "random trees (half mutated); non-trivial = accepted by the parser. K1: exhaustive strings over a 34-symbol "
                 "alphabet to a length bound, plus spelled random formulae (a third mutated); non-trivial = lexes to a "
@@ -304,8 +308,8 @@ MANIFEST_TEXT = {
                 "tree's frontier (nothing dropped); the model is tied to /repo's parser and tokenizer on every run by exhaustive "
                 "(bounded) + random differential runs, and model-free oracles (frontier, plain-vs-extended) run on the implementation.",
         "note": "Trusted: Lean kernel, axioms {propext, Classical.choice, Quot.sound}, the correspondence harness. Modelled, not "
-                "verified: Rust std char classes. The lexical half (strings -> tokens) is tied by correspondence only, not proved "
-                "against a lexical specification.",
+                "verified: Rust std char classes ('%' not alphanumeric is a hypothesis). Plain-vs-extended is proved on the lexer "
+                "model for every text; the lexer is not proved against a separate lexical specification.",
         "technique": "Lean 4 proof (parser = grammar, by induction on fuel / derivations) + differential correspondence check",
     },
 }
